@@ -629,36 +629,27 @@ func (conn *Conn) Close() error {
 	}
 	// Drain both in and out channels to avoid a deadlock if the buffers
 	// have filled. See TestSendDeadlockOnFullBuffer in connection_test.go.
-	conn.drainIn()
-	conn.drainOut()
-	conn.wg.Wait()
+	// Keep draining until every goroutine has exited: recv may still be
+	// parsing buffered data into conn.in, and handlers, the pinger or user
+	// goroutines may still be writing to conn.out.
+	done := make(chan struct{})
+	go func() {
+		conn.wg.Wait()
+		close(done)
+	}()
+	for drained := false; !drained; {
+		select {
+		case <-conn.in:
+		case <-conn.out:
+		case <-done:
+			drained = true
+		}
+	}
 	conn.mu.Unlock()
 	// Dispatch after closing connection but before reinit
 	// so event handlers can still access state information.
 	conn.dispatch(&Line{Cmd: DISCONNECTED, Time: time.Now()})
 	return err
-}
-
-// drainIn sends all data buffered in conn.in to /dev/null.
-func (conn *Conn) drainIn() {
-	for {
-		select {
-		case <-conn.in:
-		default:
-			return
-		}
-	}
-}
-
-// drainOut does the same for conn.out. Generics!
-func (conn *Conn) drainOut() {
-	for {
-		select {
-		case <-conn.out:
-		default:
-			return
-		}
-	}
 }
 
 // Dumps a load of information about the current state of the connection to a
